@@ -85,6 +85,173 @@ fn replay_any<D: Driver>(w: &engine::WitnessFile) -> i32 {
     engine::replay::<D>(w)
 }
 
+fn run_conc(args: &[String]) -> i32 {
+    use fiv::conc::workloads::{run_workload, ConcStats};
+    use fiv::util::Json;
+    let name = args.get(2).cloned().unwrap_or_default();
+    let prop = arg(args, "--prop").unwrap_or("all").to_string();
+    let seed: u64 = arg(args, "--seed").and_then(|s| s.parse().ok()).unwrap_or(1);
+    let runs: u64 = arg(args, "--runs").and_then(|s| s.parse().ok()).unwrap_or(100);
+    let secs: u64 = arg(args, "--secs").and_then(|s| s.parse().ok()).unwrap_or(3600);
+    let replay_dir = arg(args, "--replay-dir").unwrap_or("replays").to_string();
+    let out = arg(args, "--out").map(|s| s.to_string());
+    futures_intrusive::verif::set_interleave_hook(Some(fiv::conc::interleave_hook));
+    let mut ctx = fiv::engine::Ctx::new();
+    let mut st = ConcStats::new();
+    let t0 = Instant::now();
+    let mut viols: Vec<(String, String, String, String)> = vec![];
+    let mut harness: Vec<String> = vec![];
+    let mut other: std::collections::BTreeMap<String, u64> = Default::default();
+    for r in 0..runs {
+        if t0.elapsed().as_secs() > secs {
+            break;
+        }
+        let rs = seed.wrapping_mul(1_000_003).wrapping_add(r);
+        ctx.fails.clear();
+        if let Some(v) = run_workload(&name, rs, &mut ctx, &mut st) {
+            if v.prop == "harness" {
+                harness.push(format!("{}: {} (run seed {})", v.pred, v.detail, rs));
+                if harness.len() > 3 {
+                    break;
+                }
+                continue;
+            }
+            if v.prop == prop || prop == "all" {
+                let path = format!("{}/{}-conc-{}-{}.log", replay_dir, v.prop, name, rs);
+                let _ = std::fs::create_dir_all(&replay_dir);
+                let _ = std::fs::write(&path, format!("workload {} run-seed {}\nproperty {} predicate {}\n{}\n\nmerged event log (native schedules cannot be replayed; re-check with the same seed or under Miri):\n{}", name, rs, v.prop, v.pred, v.detail, v.log));
+                viols.push((v.prop.to_string(), v.pred.to_string(), v.detail.clone(), path));
+                if viols.len() >= 3 {
+                    break;
+                }
+            } else {
+                *other.entry(format!("{}/{}", v.prop, v.pred)).or_insert(0) += 1;
+            }
+        }
+    }
+    let ms = t0.elapsed().as_millis() as u64;
+    let mut j = Json::new();
+    j.begin_obj();
+    j.kv_str("driver", &format!("conc-{}", name));
+    j.kv_str("mode", "conc");
+    j.kv_str("prop", &prop);
+    j.kv_num("seed", seed);
+    j.kv_num("k", 0);
+    j.kv_num("events", st.ops);
+    j.kv_num("episodes", st.runs);
+    j.kv_num("states", st.sigs.len() as u64);
+    j.kv_num("transitions", 0);
+    j.kv_num("wall_ms", ms);
+    j.kv_num("max_queue", 0);
+    j.key("bfs");
+    j.begin_obj();
+    j.kv_num("states", 0);
+    j.kv_bool("exhausted", false);
+    j.kv_num("max_depth", 0);
+    j.kv_num("configs", 0);
+    j.kv_num("exhausted_configs", 0);
+    j.end_obj();
+    j.key("props");
+    j.begin_obj();
+    for (p, s) in &ctx.props {
+        j.key(p);
+        j.begin_obj();
+        j.kv_num("evals", s.evals);
+        j.kv_num("nonvac", s.nonvac);
+        j.kv_num("distinct", s.distinct.len() as u64);
+        j.key("preds");
+        j.begin_obj();
+        for (n, stt) in &s.by_pred {
+            j.key(n);
+            j.begin_arr();
+            j.num(stt.evals);
+            j.num(stt.nonvac);
+            j.end_arr();
+        }
+        j.end_obj();
+        j.end_obj();
+    }
+    j.end_obj();
+    j.key("kinds");
+    j.begin_obj();
+    j.end_obj();
+    j.key("counters");
+    j.begin_obj();
+    j.kv_num(&format!("conc[{}].runs", name), st.runs);
+    j.kv_num(&format!("conc[{}].distinct_interleaving_signatures", name), st.sigs.len() as u64);
+    j.kv_num(&format!("conc[{}].futures_cancelled", name), st.cancelled);
+    j.kv_num(&format!("conc[{}].futures_completed", name), st.completed);
+    j.kv_num(&format!("conc[{}].logical_deadlock_checks", name), st.deadlock_checks);
+    j.kv_num(&format!("conc[{}].watchdogs", name), st.watchdogs);
+    for i in 0..16 {
+        if st.sites[i] > 0 {
+            j.kv_num(&format!("conc.interleave_site[{}].hits", i), st.sites[i]);
+        }
+    }
+    j.end_obj();
+    j.key("violations");
+    j.begin_arr();
+    for (p, pr, d, path) in &viols {
+        j.begin_obj();
+        j.kv_str("prop", p);
+        j.kv_str("pred", pr);
+        j.kv_str("detail", d);
+        j.kv_str("cfg", &name);
+        j.kv_str("replay", path);
+        j.kv_num("len", 0);
+        j.kv_num("shrunk_from", 0);
+        j.key("events");
+        j.begin_arr();
+        j.str("threaded-run");
+        j.end_arr();
+        j.end_obj();
+    }
+    j.end_arr();
+    j.key("other_fails");
+    j.begin_obj();
+    for (k, n) in &other {
+        j.key(k);
+        j.begin_obj();
+        j.kv_num("n", *n);
+        j.kv_str("example", "");
+        j.end_obj();
+    }
+    j.end_obj();
+    j.key("harness_problems");
+    j.begin_arr();
+    for h in &harness {
+        j.str(h);
+    }
+    j.end_arr();
+    j.key("samples");
+    j.begin_arr();
+    j.str(&format!("conc {}: {} runs, {} ops, {} distinct interleaving signatures", name, st.runs, st.ops, st.sigs.len()));
+    j.end_arr();
+    j.end_obj();
+    if let Some(o) = &out {
+        let _ = std::fs::write(o, &j.s);
+        for (p, s) in &ctx.props {
+            engine::write_hashes(&format!("{}.{}.hashes", o, p), &s.distinct);
+        }
+        engine::write_hashes(&format!("{}.states.hashes", o), &st.sigs);
+    } else {
+        println!("SUMMARY {}", j.s);
+    }
+    for (p, pr, d, path) in &viols {
+        println!("VIOLATION property={} replay={} predicate={} driver=conc-{} :: {}", p, path, pr, name, d);
+    }
+    for h in &harness {
+        println!("INCONCLUSIVE-HARNESS {}", h);
+    }
+    if !viols.is_empty() {
+        1
+    } else if !harness.is_empty() {
+        3
+    } else {
+        0
+    }
+}
+
 fn main() {
     fiv::util::install_quiet_panic_hook();
     let args: Vec<String> = std::env::args().collect();
@@ -113,6 +280,7 @@ fn main() {
             }
             drivers!(driver.as_str(), run_hist, &opts)
         }
+        Some("conc") => run_conc(&args),
         Some("replay") => match engine::read_witness(args.get(2).map(|s| s.as_str()).unwrap_or("")) {
             Ok(w) => {
                 println!("replaying {} history for {} / {} on cfg {}", w.driver, w.prop, w.pred, w.cfg);
